@@ -131,6 +131,20 @@ Json gen(sim::Rng& rng, int tier)
             conns.push(c);
         }
     }
+    // the wall clock is stepped now and then (NTP step, date set by hand, VM resume): by seconds or by hours, forwards or
+    // backwards, at drawn instants of the run. Time-outs are intervals and must not care.
+    if (rng.chance(0.3)) {
+        Json steps = Json::array();
+        int ns = static_cast<int>(rng.range(1, 3));
+        for (int i = 0; i < ns; ++i) {
+            Json st = Json::object();
+            st["at_ms"] = static_cast<long>(rng.below(static_cast<u64>(std::max(H, B) + 3000)));
+            long mag = rng.chance(0.5) ? static_cast<long>(500 + rng.below(5000)) : static_cast<long>(60000 + rng.below(7200000));
+            st["delta_ms"] = rng.chance(0.5) ? mag : -mag;
+            steps.push(st);
+        }
+        p["clock_steps"] = steps;
+    }
     p["conns"] = conns;
     for (size_t i = 0; i < conns.size(); ++i)
         if (conns.at(i).str("kind") == "time" && L < 256) p["max_req"] = 256L; // the stalled request itself must fit
@@ -266,6 +280,12 @@ void run(const Json& plan)
         } else
             cp.cl->start(c.num("start_us", 0) * 1000);
         cps.push_back(cp);
+    }
+    for (size_t i = 0; i < plan.get("clock_steps").size() && i < 8; ++i) {
+        const Json& st = plan.get("clock_steps").at(i);
+        const i64 delta = std::max<i64>(-10000000, std::min<i64>(st.num("delta_ms", 0), 10000000)) * 1000000LL;
+        sim::schedule_at(std::max<i64>(0, std::min<i64>(st.num("at_ms", 0), 100000)) * 1000000LL, [delta] { sim::step_wall_clock(delta); }, "fault.clock-step");
+        r.probe("wall-clock-stepped");
     }
     std::shared_ptr<actors::Client> busy_client;
     const i64 busy_ms = std::max<i64>(0, std::min<i64>(plan.num("busy_ms", 0), 3000));
